@@ -18,6 +18,8 @@ REPO = G.REPO
 SEMANTIC = [
     (re.compile(r'^postcondition not satisfied'), 'postcondition'),
     (re.compile(r'^precondition not satisfied'), 'precondition-at-call'),
+    (re.compile(r'^precondition not met: index in bounds'), 'index-out-of-bounds'),
+    (re.compile(r'^precondition not met'), 'precondition-at-call'),
     (re.compile(r'^unable to prove post-?condition of closure'), 'closure-postcondition'),
     (re.compile(r'^unable to prove pre-?condition of closure'), 'precondition-at-call'),
     (re.compile(r'^invariant not satisfied at end of loop body'), 'invariant-preserved'),
@@ -119,8 +121,14 @@ def vacuity_variant(g, wave='body'):
                 if wave == 'body':
                     inserts.append((toks[it.open_i].end, 'vac.%s.body' % name))
                 else:
-                    for n, (kw, op, cl) in enumerate(G.find_loops(toks, it.open_i + 1, it.close_i), 1):
-                        inserts.append((toks[op].end, 'vac.%s.loop%d' % (name, n)))
+                    # one wave per loop nesting depth: a failed assert(false) is assumed for the rest of its body,
+                    # which (without loop isolation) would make every loop nested inside it look unreachable
+                    want = 0 if wave == 'loops' else int(wave.rsplit('_d', 1)[1])
+                    loops = list(G.find_loops(toks, it.open_i + 1, it.close_i))
+                    for n, (kw, op, cl) in enumerate(loops, 1):
+                        depth = sum(1 for (_, op2, cl2) in loops if op2 < op and cl < cl2)
+                        if depth == want:
+                            inserts.append((toks[op].end, 'vac.%s.loop%d' % (name, n)))
             elif head[:1] in (['impl'], ['trait'], ['mod']) or 'impl' in head[:2] or 'trait' in head[:2]:
                 walk(it.open_i + 1, it.close_i)
     # only walk inside verus! { ... }
@@ -314,8 +322,8 @@ def run_verus_unit(uid, cfg, tier='quick', quiet=True):
             if '"verified"' not in so2:
                 to2 = True
             return wave, points, [p for p in points if p not in hit], to2
-        with _cf.ThreadPoolExecutor(max_workers=2) as ex:
-            outs = list(ex.map(one, ['body', 'loops']))
+        with _cf.ThreadPoolExecutor(max_workers=4) as ex:
+            outs = list(ex.map(one, ['body', 'loops', 'loops_d1', 'loops_d2']))
         points = sum(len(o[1]) for o in outs)
         missing = [p for o in outs for p in o[2]]
         timed = any(o[3] for o in outs)
